@@ -148,7 +148,9 @@ static std::string runScenario(bool seq, bool unixSock, bool both, int nclients,
 		}
 		else if (pattern == "mixed") { delayUs = (r & 1) ? 0 : (int)((r >> 3) % (unsigned)(stopMs * 1500 + 1)); early = ((r >> 1) % 5 == 0); }
 		bool useUnix = both ? (k % 2 == 1) : unixSock;
-		cl.push_back(std::thread([k, delayUs, holdUs, early, useUnix, port, &path, &replies, &sent]() {
+		// in sequential mode a client queues behind the slow ones (up to 2 x 3 s inside serve()): it must wait that long for its reply
+		double replyWait = seq ? 14.0 : 3.0;
+		cl.push_back(std::thread([k, delayUs, holdUs, early, useUnix, port, replyWait, &path, &replies, &sent]() {
 			if (delayUs) usleep(delayUs);
 			String tok = String("c") + String(k);
 			if (useUnix) {
@@ -158,7 +160,7 @@ static std::string runScenario(bool seq, bool unixSock, bool both, int nclients,
 				if (holdUs) usleep(holdUs);
 				s << tok + "\n";
 				sent[k] = 1;
-				if (s.waitInput(3.0)) { String l = s.readLine(); replies[k] = std::string(*l, l.length()); }
+				if (s.waitInput(replyWait)) { String l = s.readLine(); replies[k] = std::string(*l, l.length()); }
 				s.close();
 			}
 			else {
@@ -168,7 +170,7 @@ static std::string runScenario(bool seq, bool unixSock, bool both, int nclients,
 				if (holdUs) usleep(holdUs);
 				s << tok + "\n";
 				sent[k] = 1;
-				if (s.waitInput(3.0)) { String l = s.readLine(); replies[k] = std::string(*l, l.length()); }
+				if (s.waitInput(replyWait)) { String l = s.readLine(); replies[k] = std::string(*l, l.length()); }
 				s.close();
 			}
 		}));
